@@ -108,6 +108,8 @@ type Outcome struct {
 	ServerErrs []string
 	Crash     *vh.Finding
 	Notes     []string
+	Hang      string // goroutine dump if the scenario did not finish within the budget
+	instances int
 }
 
 func setDefs(sc Scenario) {
@@ -266,8 +268,25 @@ func decodeDir(root string) (map[string]*vh.ForwardMessage, []string) {
 	return out, errs
 }
 
-// Run executes a scenario and returns the observations.
+// Run executes a scenario and returns the observations. A scenario that does not finish within ScenarioBudget is
+// reported with a goroutine dump (Hang is set) instead of blocking the whole run.
 func Run(sc Scenario) *Outcome {
+	done := make(chan *Outcome, 1)
+	go func() { done <- runScenario(sc) }()
+	select {
+	case o := <-done:
+		return o
+	case <-time.After(ScenarioBudget):
+		dump := vh.GoroutineDump()
+		_ = os.WriteFile(filepath.Join(os.TempDir(), fmt.Sprintf("verif-e2e-hang-%d.txt", os.Getpid())), []byte(dump), 0o644)
+		return &Outcome{Sc: sc, Expected: map[string]*Expected{}, Hang: dump}
+	}
+}
+
+// ScenarioBudget bounds one scenario (normal scenarios take 0.1-3 s).
+var ScenarioBudget = 150 * time.Second
+
+func runScenario(sc Scenario) *Outcome {
 	out := &Outcome{Sc: sc, Expected: map[string]*Expected{}}
 	setDefs(sc)
 	oldB, oldR := fluentdforward.SetChunkLimitsForVerif(sc.ChunkBytes, 0)
@@ -558,7 +577,11 @@ func (o *Outcome) collectServer(i int, s *vh.FakeForward) {
 	for len(o.Servers) <= i {
 		o.Servers = append(o.Servers, nil)
 	}
-	o.Servers[i] = append(o.Servers[i], s.Snapshot()...)
+	o.instances++
+	for _, m := range s.Snapshot() {
+		m.Conn += o.instances * 100000 // connection indexes restart with every server instance
+		o.Servers[i] = append(o.Servers[i], m)
+	}
 	o.ServerErrs = append(o.ServerErrs, s.DecodeErrors...)
 }
 
